@@ -40,6 +40,9 @@ impl Prop for C15 {
             Tier::Thorough => 120_000,
         }
     }
+    fn run_timeout_s(&self) -> u64 {
+        90
+    }
     fn rule(&self) -> &'static str {
         "one run = one generated program (or non-terminating program, or option-validation sweep) whose exact cycle need n is measured with an unlimited timer; the timer is then fired at every m in {max(64,n-3)..n+3} and at sampled m in [64,n); one evaluation = one (program, m) execution. Non-trivial = the unlimited execution succeeded (or the program is non-terminating by construction) and at least one instant on each side of n that exists was exercised; distinct = digest of (source, inputs, instants)."
     }
@@ -113,7 +116,9 @@ impl Prop for C15 {
         }
         instants.sort();
         instants.dedup();
-        json!({"kind": "term", "prog": prog, "instants": instants, "expected_cycles": *rng.pick(&[0u64, 64])})
+        // expected_cycles: 0 / 64, or "max" = equal to the limit itself (its padded value then exceeds a
+        // limit that is not a power of two)
+        json!({"kind": "term", "prog": prog, "instants": instants, "expected_cycles": *rng.pick(&[0u64, 64, u64::MAX, u64::MAX])})
     }
 
     fn execute(&self, sc: &Value) -> RunOut {
@@ -222,7 +227,7 @@ impl Prop for C15 {
                     if !(64..=u32::MAX as u64).contains(&m) {
                         continue;
                     }
-                    let exp = sc["expected_cycles"].as_u64().unwrap_or(64).min(m) as u32;
+                    let exp = sc["expected_cycles"].as_u64().unwrap_or(64).min(m).min(1 << 30) as u32;
                     let mut host_b = spec.host(vec![], hostcfg());
                     let b = vm::run(&program, spec.stack(), &mut host_b, vm::options(Some(m as u32), exp, false));
                     out.evals += 1;
